@@ -68,6 +68,11 @@ fn known_for<'a>(known: &'a [Known], prop: &str, class: &str, text: &str) -> Opt
 
 /// Execute one plan in a fresh process. Returns (result, class, text).
 fn exec_in_subprocess(engine: &str, plan: &Value, scratch: &Path) -> (String, String, String) {
+    let (a, b, c, _) = exec_in_subprocess_p(engine, plan, scratch);
+    (a, b, c)
+}
+
+fn exec_in_subprocess_p(engine: &str, plan: &Value, scratch: &Path) -> (String, String, String, Value) {
     let file = scratch.join(format!("plan-{}.json", std::process::id()));
     std::fs::write(&file, serde_json::to_vec(plan).unwrap()).expect("write plan");
     let out = Command::new(exe())
@@ -86,11 +91,12 @@ fn exec_in_subprocess(engine: &str, plan: &Value, scratch: &Path) -> (String, St
                     v["result"].as_str().unwrap_or("harness").to_string(),
                     v["class"].as_str().unwrap_or("").to_string(),
                     v["text"].as_str().unwrap_or("").to_string(),
+                    v["plan_patch"].clone(),
                 ),
-                Err(_) => ("harness".into(), "".into(), format!("unparsable output (status {:?})", o.status)),
+                Err(_) => ("harness".into(), "".into(), format!("unparsable output (status {:?})", o.status), Value::Null),
             }
         }
-        Err(e) => ("harness".into(), "".into(), e.to_string()),
+        Err(e) => ("harness".into(), "".into(), e.to_string(), Value::Null),
     }
 }
 
@@ -98,12 +104,34 @@ fn exec_in_subprocess(engine: &str, plan: &Value, scratch: &Path) -> (String, St
 fn minimise(engine: &str, plan: &Value, class: &str, scratch: &Path, budget_s: u64) -> (Value, String) {
     let t0 = std::time::Instant::now();
     let mut best = plan.clone();
+    // keys that pin one crash image are recomputed for the minimised workload
+    let had_patch = best.get("only").map(|v| !v.is_null()).unwrap_or(false);
+    if let Some(m) = best.as_object_mut() {
+        m.remove("only");
+        m.remove("log_digest");
+    }
+    let finish = |best: Value, text: String| -> (Value, String) {
+        if !had_patch {
+            return (best, text);
+        }
+        let (r, c, t, patch) = exec_in_subprocess_p(engine, &best, scratch);
+        let mut out = best;
+        if r == "violation" && c == class {
+            if let Value::Object(m) = patch {
+                for (k, v) in m {
+                    out[k.as_str()] = v;
+                }
+            }
+            return (out, t);
+        }
+        (out, text)
+    };
     let (r0, c0, t0text) = exec_in_subprocess(engine, &best, scratch);
     let mut best_text = t0text;
     if r0 != "violation" || c0 != class {
-        return (best, best_text);
+        return (plan.clone(), best_text);
     }
-    let ops_key = if best.get("ops").is_some() { "ops" } else { return (best, best_text) };
+    let ops_key = if best.get("ops").is_some() { "ops" } else { return finish(best, best_text) };
     let mut chunk = (best[ops_key].as_array().map(|a| a.len()).unwrap_or(0) / 2).max(1);
     loop {
         let ops: Vec<Value> = best[ops_key].as_array().cloned().unwrap_or_default();
@@ -111,7 +139,7 @@ fn minimise(engine: &str, plan: &Value, class: &str, scratch: &Path, budget_s: u
         let mut i = 0;
         while i < ops.len() {
             if t0.elapsed().as_secs() > budget_s {
-                return (best, best_text);
+                return finish(best, best_text);
             }
             let cur: Vec<Value> = best[ops_key].as_array().cloned().unwrap_or_default();
             if i >= cur.len() {
@@ -138,7 +166,7 @@ fn minimise(engine: &str, plan: &Value, class: &str, scratch: &Path, budget_s: u
             chunk = (chunk / 2).max(1);
         }
     }
-    (best, best_text)
+    finish(best, best_text)
 }
 
 pub fn run(prop: &str, tier: &str) -> i32 {
@@ -329,7 +357,7 @@ pub fn run(prop: &str, tier: &str) -> i32 {
         "property_id": prop,
         "tier": if thorough { "thorough" } else { "quick" },
         "seed": seed,
-        "level": "exploration",
+        "level": if spec.engine == "e1" { "fault_enumeration" } else { "exploration" },
         "wall_s": wall,
         "violations": n_violation,
         "coverage": {
@@ -390,6 +418,10 @@ fn components(engine: &str) -> Value {
             "real": ["xs::store::Store (append, insert_frame, remove, read, read_sync, get, head, gc worker, history thread)", "fjall 2.4.4 / lsm-tree (journal, memtable, forced flush + journal rotation, recovery on reopen)", "tokio runtime (current_thread) and channels", "scru128 id layout"],
             "stubbed": ["wall clock (simulated ms)", "id entropy and timestamp (seeded generator on the simulated clock)", "scheduling of the gc worker and history thread (released one step at a time by the seeded scheduler)", "read channel capacity (knob)", "restart (clean close + reopen, or byte copy of the live directory at a quiescent instant)"]
         }),
+        "e1" => json!({
+            "real": ["xs::store::Store (append, insert_frame, remove, gc worker) write path", "fjall journal / memtable flush / recovery (Store::new on every image)", "cacache write paths (mmap-sized and streaming) and integrity-checked reads", "tmpfs file system executing every operation for real"],
+            "stubbed": ["durability: crash images are rebuilt from the recorded operation log (kill / power-loss / torn)", "crash instant (every log prefix)", "clock and ids (simulated)", "gc worker scheduling (one task per step)"]
+        }),
         "e2" => json!({
             "real": ["xs::store::Store::append / read / read_sync on real OS threads and tokio tasks", "tokio broadcast + mpsc channels, current_thread runtime (stepped)", "fjall write path"],
             "stubbed": ["thread and task interleaving (every writer, history thread and live task parks at sync points and is released by the seeded chooser)", "clock (tokio paused clock + simulated wall clock, advanced by decisions)", "id entropy", "broadcast and delivery channel capacities (knobs)"]
@@ -405,6 +437,12 @@ fn assumptions(engine: &str) -> Value {
             "fjall's background flush/compaction threads are not scheduled; flushes are forced from the foreground",
             "crash reopen in this engine is a copy taken at a quiescent instant (syscall-granular crash points are C04's engine)",
             "hooks are compiled in with --cfg xs_verif; with no controller installed they are no-ops"
+        ]),
+        "e1" => json!([
+            "exhaustive over crash points per workload, workloads sampled by seed",
+            "power-loss model: unsynced journal bytes dropped (all, or all but a prefix); other files keep completed writes; directory operations ordered and durable",
+            "cuts inside the creation of a brand-new store are not judged",
+            "fjall background threads are waited for (log quiet for 30 ms), not scheduled"
         ]),
         "e2" => json!([
             "sampling, not proof: verdict covers the schedules explored",
